@@ -72,6 +72,26 @@ def gen_scenarios(seed, tier):
                      tail=5.0, seed=rng.randrange(1 << 30))
             from props.common import schedule_modes
             d.update(schedule_modes(rng))
+        elif i % 16 == 7:
+            # two (or three) threads call shutdown() at the same virtual instant on a worker executor over a pool: whichever way their
+            # steps interleave, the executor leaves `exec_inprogress` exactly once
+            kind = rng.choice(["throttle", "throttle", "retry", "poll", "timeout", "map", "cancel_on_shutdown"])
+            lay = sc.gen_layer(rng, kind)
+            if kind == "throttle":
+                lay[1]["block"] = False
+                if lay[1].get("count") in (0, None) or isinstance(lay[1].get("count"), list):
+                    lay[1]["count"] = rng.choice([1, 2])
+            if kind == "poll":
+                lay[1]["poll_script"] = [x for x in lay[1]["poll_script"] if x != "none"] or ["yield"]
+            t0 = rng.choice([0.5, 2.0, 5.0])
+            clients = [[["submit", "k0", [[["sleep", rng.choice([0.0, 1.0])], ["ret", 1]]]], ["sleep", t0], ["shutdown", rng.choice([True, False])]],
+                       [["sleep", t0], ["shutdown", rng.choice([True, False])]]]
+            if rng.random() < 0.3:
+                clients.append([["sleep", t0], ["shutdown", rng.choice([True, False])]])
+            d = dict(kind="stack", idx=i, base=rng.choice(["simpool1", "simpool2"]), layers=[lay], clients=clients, tail=30.0,
+                     seed=rng.randrange(1 << 30), family="racing-shutdowns")
+            from props.common import schedule_modes
+            d.update(schedule_modes(rng))
         else:
             d = sc.gen_stack(rng, i, ops=("submit", "submit", "cancel", "addcb", "sleep", "result"), tail=(60.0,), shutdown_p=0.0, max_layers=3)
             if not d["layers"]:
